@@ -26,3 +26,47 @@ PROPS['C19'] = dict(
     level_text='generated-input search against an exact integer oracle; the thorough tier enumerates all 2^32 arguments of a_u32_sqrt, every k^2-1,k^2,k^2+1 of a_u64_sqrt and all 8/16-bit reversals, the rest is sampled',
     level_note='trusts clang __int128 arithmetic and the reference gcd/bit-reversal loops in exec/C19.cc; 64-bit domains are sampled, not exhausted',
 )
+
+TREE_RULE = ('choice tape -> key-universe size in {4,8,12,16,32,64,128,256} and a history of <= 400 ops (search, insert x3, remove x2 of a present key, '
+             'duplicate insert of a resident key) on one tree whose nodes are separate heap blocks; after every call a full walk checks links, order, '
+             'balance/colour invariants and identity against a std::map model; non-trivial = >= 8 successful inserts, >= 1 removal of a two-child node '
+             'and >= 1 insert after a removal; distinct = hash of (universe, decoded op/key sequence)')
+TREE_ASSUME = COMMON_ASSUME + ['model: std::map<int, node*>; the walk reads the public node fields and decodes parent_ as documented in the header',
+                               'histories are bounded by 400 operations and 256 live keys']
+
+PROPS['C01'] = dict(
+    level='exploration', rule=TREE_RULE, assumptions=TREE_ASSUME,
+    units=lambda tier, seed: [Unit('avl', 'exec/trees.cc', ['avl.c'], exec_defs=['-DVP_PROP=1'], tape_len=400)] +
+    ([Unit('avl-O2', 'exec/trees.cc', ['avl.c'], exec_defs=['-DVP_PROP=1'], tape_len=600, opt='-O2', fuzz=False)] if tier == 'thorough' else []),
+    plan={'quick': dict(rc_procs=10, rc_cases=6000, fuzz_procs=6, fuzz_secs=25),
+          'thorough': dict(rc_procs=8, rc_cases=60000, fuzz_procs=8, fuzz_secs=240)},
+    technique='model-based stateful property-based testing (rapidcheck choice tapes, std::map model, full invariant walk after every call) + coverage-guided libFuzzer on the same executor under ASan/UBSan',
+    level_text='generated insert/remove/lookup histories against a reference model with every structural invariant of the statement checked after every call; sampling, not proof',
+    level_note='trusts the std::map model and the invariant walker in exec/trees.cc; histories <= 400 ops, <= 256 keys',
+)
+PROPS['C02'] = dict(
+    level='exploration', rule=TREE_RULE + '; labels record the unlink case and whether a black node left the tree', assumptions=TREE_ASSUME,
+    units=lambda tier, seed: [Unit('rbt', 'exec/trees.cc', ['rbt.c'], exec_defs=['-DVP_PROP=2'], tape_len=400)] +
+    ([Unit('rbt-O2', 'exec/trees.cc', ['rbt.c'], exec_defs=['-DVP_PROP=2'], tape_len=600, opt='-O2', fuzz=False)] if tier == 'thorough' else []),
+    plan={'quick': dict(rc_procs=10, rc_cases=6000, fuzz_procs=6, fuzz_secs=25),
+          'thorough': dict(rc_procs=8, rc_cases=60000, fuzz_procs=8, fuzz_secs=240)},
+    technique='model-based stateful property-based testing (rapidcheck choice tapes, std::map model, red-black invariant walk after every call) + coverage-guided libFuzzer under ASan/UBSan',
+    level_text='generated histories against a reference model; root colour, red-red, black-height, order and parent links are checked after every call; sampling, not proof',
+    level_note='trusts the std::map model and the invariant walker in exec/trees.cc; the -O2 unit (thorough) exercises the A_ASSUME code generation',
+)
+PROPS['C03'] = dict(
+    level='exploration',
+    rule='(a) histories as for C01/C02 on both containers, with the full iterator battery (six traversals in both macro spellings, head/tail, next/prev inverses) after '
+         'mutating steps and a tear-down at the end whose interruption point and continuation mode come from the tape (nodes are freed when handed out); '
+         '(b) enumeration: every insertion order of n <= 6 (quick) / 8 (thorough) distinct keys, every ordered pair of removals, every tear interruption point; '
+         'non-trivial = final tree with >= 5 nodes having a left-only and a right-only internal node; distinct = hash of the decoded history (a) / distinct tree shapes (b)',
+    assumptions=TREE_ASSUME + ['reference traversals are recursive walks over the same links; link integrity itself is C01/C02'],
+    units=lambda tier, seed: [Unit('avl', 'exec/trees.cc', ['avl.c', 'rbt.c'], exec_defs=['-DVP_PROP=3'], tape_len=300, enum=True),
+                              Unit('rbt', 'exec/trees.cc', ['avl.c', 'rbt.c'], exec_defs=['-DVP_PROP=3', '-DVP_RBT'], tape_len=300, enum=True)],
+    plan={'quick': dict(rc_procs=4, rc_cases=5000, fuzz_procs=2, fuzz_secs=20, enum_shards=2, enum_tier=0),
+          'thorough': dict(rc_procs=4, rc_cases=50000, fuzz_procs=4, fuzz_secs=180, enum_shards=8, enum_tier=1)},
+    has_enum=True,
+    technique='property-based testing of iterator sequences against recursive reference traversals over generated histories, plus exhaustive enumeration of all small trees (insertion orders x removals x tear interruption points); free-on-hand-out under ASan for tear-down',
+    level_text='every iterator protocol (function and macro forms) compared element by element with a reference traversal on generated and exhaustively enumerated small trees; tear-down checked with immediate free under ASan',
+    level_note='trusts the recursive reference traversals; trees beyond 256 nodes are not generated; exhaustive only for <= 8 keys',
+)
